@@ -416,6 +416,8 @@ class ScriptPlan:
         try:
             output_dir = self.args.output_dir or "./"
             self.project.outputDir = output_dir
+            # With --output-dir the reports are confined to that directory
+            self.project.confineOutput = bool(self.args.output_dir)  # type: ignore[attr-defined]
 
             # Determine which reports to generate
             report_ids = self.args.report_ids or []
